@@ -112,7 +112,13 @@ def _cli_batch(job):
             if bad or got != expected:
                 sp = [g for g in got if g not in expected]
                 ms = [e for e in expected if e not in got]
-                quirk = set(l["n"] for l in lines if l.get("quirk"))
+                equirk = set(l["n"] for l in lines if l.get("engine_quirk"))
+                if not bad and equirk and all(n in equirk for n in sp + ms):
+                    _viol(rep, "C01:regex-engine-optimised-search-differs-from-nfa-simulation",
+                          "rg %s: lines %s differ; on each of them the regex library's optimised engine and its NFA simulation disagree" % (" ".join(args[6:-1]), (sp + ms)[:10]),
+                          case, invert, args, so, se, status, expected, got)
+                    continue
+                quirk = set(l["n"] for l in lines if l.get("quirk") and not l.get("engine_quirk"))
                 if not bad and quirk and all(n in quirk for n in sp + ms):
                     _viol(rep, "C01:unicode-word-boundary-next-to-invalid-utf8",
                           "rg %s: lines %s differ, all next to invalid UTF-8 under a Unicode word boundary" % (" ".join(args[6:-1]), (sp + ms)[:10]),
